@@ -196,6 +196,7 @@ class Machine(object):
         self.cellneeds = None           # projected key -> needed cells (from the pre-analysis)
         self.dmax = DMAX
         self.harness = {'URI', 'STATE', 'ERRPOS', 'OCT'}   # caller-side objects of the analysis harness
+        self.literals = False           # concrete mode: string literals are values
         self.input_writable = False     # concrete mode: in-place transformers may store into the text
         self.coarse_regs = True         # URI text-range fields hold NULL / placeholder / 'some input pointer'
         self.optimistic = False         # pre-analysis mode: fill-array cells are unknown, unknown branches fork
@@ -373,6 +374,11 @@ class Machine(object):
                 if c.k == 'ref' and c.v == self.safe_name:
                     return SAFE
                 if c.k == 'str':
+                    if self.literals:
+                        v = c.v or ''
+                        if v.startswith('L'):
+                            v = v[1:]
+                        return ('lit', v[1:-1] if len(v) >= 2 and v[0] == '"' else v)
                     return TOP
                 pl = self.loc_of(st, e.c[0])
                 return ('a', pl[0], pl[1] + (0,))
@@ -497,8 +503,8 @@ class Machine(object):
 
     def arith(self, op, a, b, e):
         # pointer arithmetic
-        if a[0] in ('p', 'pp', 'a', 'e', 'pin') or (b[0] in ('p', 'pp', 'a', 'e', 'pin') and op == '+'):
-            if op == '+' and a[0] not in ('p', 'pp', 'a', 'e', 'pin'):
+        if a[0] in ('p', 'pp', 'a', 'e', 'pin', 's') or (b[0] in ('p', 'pp', 'a', 'e', 'pin') and op == '+'):
+            if op == '+' and a[0] not in ('p', 'pp', 'a', 'e', 'pin', 's'):
                 a, b = b, a
             if op in ('+', '-') and b[0] == 'i':
                 return self.ptr_add(a, b[1] if op == '+' else -b[1], e)
@@ -506,6 +512,8 @@ class Machine(object):
                 return END
             if op == '-' and a[0] == 'p' and b[0] == 'p':
                 return ('i', a[1] - b[1])
+            if op == '-' and a == b and a[0] in ('s', 'e', 'a'):
+                return ('i', 0)
             if op == '-' and a[0] == 'a' and b[0] == 'a' and a[1] == b[1] and a[2][:-1] == b[2][:-1]:
                 return ('i', a[2][-1] - b[2][-1])
             return TOP
